@@ -153,6 +153,14 @@ fn check_vertex(scratch: &Scratch, mask: u32, origin: usize, tier: Tier, st: &mu
                     q["destination_x"] = json!(dx);
                     q["destination_y"] = json!(dy);
                 }
+                // every third query already carries vertex ids (a request echoed by an earlier run and sent again with new
+                // coordinates, or a second matcher in the chain): the matcher's answer replaces them
+                if (pi + mask as usize) % 3 == 0 {
+                    q["origin_vertex"] = json!((pi + 1) % 9);
+                    if with_dest {
+                        q["destination_vertex"] = json!((pi + 4) % 9);
+                    }
+                }
                 let before = q.clone();
                 let size = verts.len() as u64 * 1000 + pi as u64;
                 let case = || json!({"kind": "vertex", "lattice_vertices": verts, "lattice_origin": origin, "tolerance": tol.as_ref().map(|t| (t.0, t.1.to_string())), "unit_written": unit_mode, "query": before});
@@ -200,7 +208,12 @@ fn check_vertex(scratch: &Scratch, mask: u32, origin: usize, tier: Tier, st: &mu
                             o.remove("origin_vertex");
                             o.remove("destination_vertex");
                         }
-                        if rest == before {
+                        let mut before_rest = before.clone();
+                        if let Some(o) = before_rest.as_object_mut() {
+                            o.remove("origin_vertex");
+                            o.remove("destination_vertex");
+                        }
+                        if rest == before_rest {
                             st.pass("other_fields_unchanged");
                         } else {
                             st.violation(&comp, "other_fields_unchanged", size, || format!("{} -> {}", before, q), case);
